@@ -21,6 +21,8 @@ type c08Case struct {
 	Ops []op `json:"ops"`
 	// Hooks installs the cron state hooks (as sys.System does).
 	Hooks bool `json:"hooks,omitempty"`
+	// LoadDesc: storage hands back the records in descending key order.
+	LoadDesc bool `json:"loadDesc,omitempty"`
 }
 
 var c08Ids = []string{"a", "b", "c", "d", "e", "f"}
@@ -79,6 +81,7 @@ func genC08(t *rapid.T) c08Case {
 		}
 	}
 	c.Hooks = rapid.IntRange(0, 2).Draw(t, "hooks") == 0
+	c.LoadDesc = rapid.Bool().Draw(t, "loadDesc")
 	return c
 }
 
@@ -97,6 +100,7 @@ func runC08(c c08Case) *vlib.Outcome {
 		if c.Hooks {
 			w.withCronHooks()
 		}
+		w.loadDesc = c.LoadDesc
 		if _, err := w.open("L"); err != nil {
 			o.Fail("OPEN", "cannot create location: %v", err)
 			return o
